@@ -160,6 +160,9 @@ class Sim:
         # one scenario in eight runs with the loop in debug mode (PYTHONASYNCIODEBUG=1 / loop.set_debug(True)): source tracebacks on handles and
         # tasks, thread checks in call_soon, the extra logging - production code must not behave differently there
         self.loop.set_debug(bool(rotation.decide("loop_debug", (False, False, False, False, False, False, False, True))))
+        # one scenario in four makes all its harness calls from INSIDE an exception handler (clean-up or fallback code in an `except` body:
+        # sys.exc_info() is not empty anywhere in the await chain while the library runs) - the state of the calling task is the caller's business
+        self.caller_handling = rotation.decide("caller_handling_exception", ("no", "no", "no", "TimeoutError", "no", "no", "no", "OSError"))
         self._entered = True
         return self
 
@@ -401,7 +404,14 @@ class Sim:
             rec.t_call = self.clock
             rec.seq_call = self.next_seq()
             try:
-                rec.result = await factory()
+                amb = getattr(self, "caller_handling", "no")
+                if amb == "no":
+                    rec.result = await factory()
+                else:
+                    try:
+                        raise (TimeoutError if amb == "TimeoutError" else OSError)("the caller is handling this one")
+                    except (TimeoutError, OSError):
+                        rec.result = await factory()
                 rec.outcome = "ok"
             except asyncio.CancelledError as e:
                 rec.exc = e
